@@ -153,6 +153,13 @@ impl<W, R, T> Runtime<W, R, T> {
                     return Err(RuntimeViolation::AllocationLimitReached);
                 }
             } else {
+                #[cfg(xray_verif)]
+                crate::verif::observe(crate::verif::Event::Preflight {
+                    request: None,
+                    total: usize::from(self.stats.borrow().size),
+                    ok: false,
+                    site: std::panic::Location::caller(),
+                });
                 // a size too large to be represented cannot fit under the limit either
                 return Err(RuntimeViolation::AllocationLimitReached);
             }
